@@ -566,6 +566,18 @@ class Gen:
             for a in range(self.na):
                 top = 0xFFFFFFFF
                 self.do(('preset', a, top - self.rng.randrange(0, 4), top - self.rng.randrange(0, 6)))
+        if self.profile == 'S12' and self.rng.random() < 0.3:
+            # churn: many short-lived entities in one small archetype without clearing the logs, then creations past the
+            # capacity (the event logs are much longer than the storage when it grows)
+            a = self.pick_arch()
+            for _ in range(self.rng.randrange(8, 20)):
+                before = len(self.issued)
+                self.op_create(a=a)
+                if len(self.issued) > before:
+                    obs = self.do(('destroy', ('a', a), 'e', 'any', ('i', len(self.issued) - 1)))
+                    self.refresh(a)
+            for _ in range(self.rng.randrange(2, 9)):
+                self.op_create(a=a)
         fams = [k for k, v in self.weights.items() if v > 0]
         wts = [self.weights[k] for k in fams]
         table = dict(create=self.op_create, createw=lambda: self.op_create(within=True), destroy=self.op_destroy,
